@@ -162,8 +162,8 @@ PROPS = {
         module="SpqProofs.Properties.C11",
         gen=["tmpbytes"],
         variants={"plain": None, "asan": None},
-        streams=dict(quick=[("mem_pairs", "asan"), ("vz_box", "asan"), ("vz_norm", "asan"), ("kz_probe", "asan"), ("kz_norm", "asan"), ("ca_prog", "asan"), ("md_prod", "asan"), ("md_vmp", "asan"), ("md_ntt", "asan"), ("cv_misc", "asan"), ("cv_rnx", "asan"), ("cv_cplxvec", "asan")],
-                     thorough=[("mem_pairs", "asan"), ("vz_box", "asan"), ("vz_norm", "asan"), ("kz_probe", "asan"), ("kz_norm", "asan"), ("ca_prog", "asan"), ("md_prod", "asan"), ("md_vmp", "asan"), ("md_ntt", "asan"), ("cv_misc", "asan"), ("cv_rnx", "asan"), ("cv_cplxvec", "asan")]),
+        streams=dict(quick=[("mem_pairs", "asan"), ("vz_box", "asan"), ("vz_norm", "asan"), ("kz_probe", "asan"), ("kz_norm", "asan"), ("ca_prog", "asan"), ("md_prod", "asan"), ("md_vmp", "asan"), ("md_ntt", "asan"), ("cv_misc", "asan"), ("cv_rnx", "asan"), ("cv_cplxvec", "asan"), ("ca_small", "asan")],
+                     thorough=[("mem_pairs", "asan"), ("vz_box", "asan"), ("vz_norm", "asan"), ("kz_probe", "asan"), ("kz_norm", "asan"), ("ca_prog", "asan"), ("md_prod", "asan"), ("md_vmp", "asan"), ("md_ntt", "asan"), ("cv_misc", "asan"), ("cv_rnx", "asan"), ("cv_cplxvec", "asan"), ("ca_small", "asan")]),
         proved="index logic of every limb-vector operation: declared extents inside the heap imply no out-of-bounds access of the model (all shapes incl. zero limb counts), frame theorems (C18) bound the writes, scratch of the normalisation = one carry limb = *_tmp_bytes; Gen obligation: size formulas = live *_tmp_bytes / bytes_of_* values",
         not_proved="runtime residue observed by ASan/UBSan-bounds/LSan on exactly-sized heap buffers, not proved: accesses inside float kernels and asm leaves, alloc/free pairing of new_*/delete_*, alignment, allocator overflow abort; DFT/SVP/VMP entry points are covered by the sanitizer streams only until the module-level model lands",
         level_text="Lean 4 theorems for the index logic (bounds flag, frame, scratch size) + kernel-decided size-formula obligation on live values; the memory-safety residue is tied by sanitizer builds on exact-size buffers (partial)",
@@ -199,8 +199,8 @@ PROPS = {
         title="Results depend only on arguments: no hidden state, history or alignment",
         module="SpqProofs.Properties.C15",
         gen=["globals", "caches"],
-        streams=dict(quick=[("ca_prog", "plain"), ("ca_irrelevant", "plain"), ("vz_box", "plain"), ("md_prod", "plain"), ("md_vmp", "plain")],
-                     thorough=[("ca_prog", "plain"), ("ca_irrelevant", "plain"), ("vz_box", "plain"), ("vz_norm", "plain"), ("md_prod", "plain"), ("md_vmp", "plain")]),
+        streams=dict(quick=[("ca_prog", "plain"), ("ca_irrelevant", "plain"), ("vz_box", "plain"), ("md_prod", "plain"), ("md_vmp", "plain"), ("ca_small", "plain")],
+                     thorough=[("ca_prog", "plain"), ("ca_irrelevant", "plain"), ("vz_box", "plain"), ("vz_norm", "plain"), ("md_prod", "plain"), ("md_vmp", "plain"), ("ca_small", "plain")]),
         proved="history independence of every function with function-local static state (structure extracted from the C source each run): after any call sequence the table in use was built with the call's own values of every table-relevant constructor argument; Gen obligations: every constructor argument is in the cache key, every function referencing mutable static storage is a modelled cache; purity of the limb-vector operations (outputs depend on source cells only)",
         not_proved="which constructor arguments are table-irrelevant is declared by hand (4 entries) and validated by byte-comparing tables (stream ca_irrelevant); buffer alignment independence is checked by the streams only (all loads are unaligned loads)",
         level_text="Lean 4 invariant proof over the cache state machine whose per-function structure is re-extracted from the C source on every run, plus kernel-decided obligations; rebuild events and outputs compared with the real code over random call programs",
@@ -210,8 +210,8 @@ PROPS = {
     "C13": dict(
         title="Supported in-place calls give the same result as out-of-place calls",
         module="SpqProofs.Properties.C13",
-        streams=dict(quick=[("vz_box", "plain"), ("kz_probe", "plain"), ("vz_norm", "plain"), ("md_prod", "plain"), ("alias_mul", "plain"), ("md_prog", "plain")],
-                     thorough=[("vz_box", "plain"), ("kz_probe", "plain"), ("vz_norm", "plain"), ("md_prod", "plain"), ("alias_mul", "plain"), ("md_prog", "plain")]),
+        streams=dict(quick=[("vz_box", "plain"), ("kz_probe", "plain"), ("vz_norm", "plain"), ("md_prod", "plain"), ("alias_mul", "plain"), ("md_prog", "plain"), ("md_ntt", "plain")],
+                     thorough=[("vz_box", "plain"), ("kz_probe", "plain"), ("vz_norm", "plain"), ("md_prod", "plain"), ("alias_mul", "plain"), ("md_prog", "plain"), ("md_ntt", "plain")]),
         proved="call-independence theorems: an aliased call (res==a or res==b, same stride) and a call with separate buffers on the same source data give identical output cells, for add/sub/copy/negate/rotate/automorphism and the big variants, all limb counts (res_size != aliased size included)",
         not_proved="the inverse DFT in place and pointwise products with r==a are float kernels: covered by the module-level streams (bit-exact), theorem staged with the FFT model",
         level_text="Lean 4 theorems: aliased call = separate-buffer call on identical data for every shape; in-place kernels tied to the real code by the exhaustive probe stream",
